@@ -59,6 +59,29 @@ theorem pack_transparent_child (ch : String) (inF outF rngF : List LFilter) (mf 
   · intro c hc; exact hout c (by simpa [h.2.1] using hc)
   · intro r hr; exact hrng r (by simpa [rngDeps, h.2.2] using hr)
 
+/-- the same for a descendant at any depth (`Top → mid → … → counter`): `inPath path` nests `inChild` -/
+theorem pack_transparent_path (path : List String) (inF outF rngF : List LFilter) (mf : LFilter)
+    (attrs : List (String × Int)) (f : Fn) (args : List Int) (s : ScopeSt) (hwf : VarsWF s.vars) (hfz : s.FrozenOk)
+    (hin : ∀ c, c ∈ cols f.body → anyMatch inF c = true)
+    (hout : ∀ c, c ∈ wcols f.body → inFilter s.mutable c = true → anyMatch outF c = true ∧ inFilter mf c = true)
+    (hrng : ∀ r, r ∈ rngDeps f.body → (alookup r s.rngs).isSome = true → anyMatch rngF r = true) :
+    Agree (runFn attrs ⟨inPath path f.body, f.ret⟩ args s)
+      (liftId inF outF rngF mf attrs ⟨inPath path f.body, f.ret⟩ args s) := by
+  have h : cols (inPath path f.body) = cols f.body ∧ wcols (inPath path f.body) = wcols f.body ∧
+      rngNames (inPath path f.body) = rngNames f.body := by
+    induction path with
+    | nil => exact ⟨rfl, rfl, rfl⟩
+    | cons ch rest ih =>
+      have := aux_inChild ch (inPath rest f.body)
+      simp only [inPath, List.foldr_cons] at this ih ⊢
+      exact ⟨this.1.trans ih.1, this.2.1.trans ih.2.1, this.2.2.trans ih.2.2⟩
+  apply liftId_agree
+  · exact hwf
+  · exact hfz
+  · intro c hc; exact hin c (by simpa [h.1] using hc)
+  · intro c hc; exact hout c (by simpa [h.2.1] using hc)
+  · intro r hr; exact hrng r (by simpa [rngDeps, h.2.2] using hr)
+
 -- a child's draw: the key carries the child's name and its own counter; the parent's counter is untouched
 example : (runFn [] ⟨inChild "d" (.seq (.rng "dropout") (.rng "dropout")), []⟩ []
       { vars := [], mutable := .ff, frozen := [], rngs := [("dropout", ⟨.seed "dropout", []⟩)],
